@@ -6,6 +6,7 @@
 -/
 import Mfi.Lemmas.WorldSolvH
 import Mfi.Lemmas.WorldRecvL
+import Mfi.Lemmas.WorldShape
 
 namespace Mfi.World
 open Mfi Mfi.Fx Mfi.Bank Mfi.Account Mfi.Gen Mfi.SolvL
@@ -264,5 +265,77 @@ theorem runTxE_fst (w : WState) (g : Ghost) (tx : List TOp) : (w.runTxE g tx).1 
   cases WState.runFromE tx 0 tx w [] with
   | none => rfl
   | some r => rfl
+
+/-! ### the shape of every slot array runs through transactions too -/
+
+theorem setAcct_shape {w : WState} {ai : Nat} {a a' : AcctV} (hw : WShape w) (ha : w.accts[ai]? = some a) (hs : a'.slots = a.slots) :
+    WShape { w with accts := w.accts.set ai a' } := by
+  intro x hx
+  simp only at hx
+  rcases List.mem_or_eq_of_mem_set hx with hx | hx
+  · exact hw x hx
+  · rw [hx, hs]; exact hw a (List.mem_of_getElem? ha)
+
+theorem stepIn_shape {tx : List TOp} {i : Nat} {t : TOp} {w w' : WState} (h : w.stepIn tx i t = some w') (hw : WShape w) : WShape w' := by
+  cases t with
+  | ix op =>
+    simp only [WState.stepIn] at h
+    rw [step?_some h]; exact step_shape w op hw
+  | startFlash ai signer endIdx =>
+    simp only [WState.stepIn] at h
+    split at h
+    · rename_i a ha
+      split at h
+      · injection h with h; subst h; exact setAcct_shape hw ha rfl
+      · cases h
+    · cases h
+  | endFlash ai signer =>
+    simp only [WState.stepIn] at h
+    split at h
+    · rename_i a ha
+      split at h
+      · injection h with h; subst h; exact setAcct_shape hw ha rfl
+      · cases h
+    · cases h
+  | startLiq ai receiver recordOk =>
+    simp only [WState.stepIn] at h
+    split at h
+    · rename_i a ha
+      split at h
+      · injection h with h; subst h; exact setAcct_shape hw ha rfl
+      · cases h
+    · cases h
+  | endLiq ai signer recordOk walletOk feeMax =>
+    simp only [WState.stepIn] at h
+    split at h
+    · rename_i a ha
+      split at h
+      · injection h with h; subst h; exact setAcct_shape hw ha rfl
+      · cases h
+    · cases h
+
+theorem runFrom_shape (tx : List TOp) : ∀ (rest : List TOp) (i : Nat) (w w' : WState),
+    WState.runFrom tx i rest w = some w' → WShape w → WShape w' := by
+  intro rest
+  induction rest with
+  | nil => intro i w w' h hi; simp only [WState.runFrom] at h; injection h with h; subst h; exact hi
+  | cons op rest ih =>
+    intro i w w' h hi
+    simp only [WState.runFrom] at h
+    split at h
+    · rename_i w1 h1; exact ih (i + 1) w1 w' h (stepIn_shape h1 hi)
+    · cases h
+
+theorem runTxs_shape : ∀ (txs : List (List TOp)) (w : WState), WShape w → WShape (w.runTxs txs) := by
+  intro txs
+  induction txs with
+  | nil => intro w h; exact h
+  | cons tx rest ih =>
+    intro w hi
+    simp only [WState.runTxs]
+    apply ih
+    cases hr : w.runTx tx with
+    | none => exact hi
+    | some w1 => exact runFrom_shape tx tx 0 w w1 hr hi
 
 end Mfi.World
